@@ -135,6 +135,7 @@ struct G<'a> {
     temps: Vec<String>,
     msg_id: usize,
     divert_vars: Vec<String>,
+    wraps: Vec<(usize, i64, i64)>,
 }
 
 const HOSTILE: &[&str] = &["\"quoted\"", "back\\\\slash", "tab\there", "caf\u{e9} \u{4f60}\u{597d}", "emoji \u{1F600}", "brace\\{x\\}", "a \\| b", "ctl\u{1}x", "nul-ish \u{7f}"];
@@ -376,6 +377,26 @@ impl<'a> G<'a> {
         }
     }
 
+    /// A line whose arithmetic the harness can re-compute: `wrap|a|op|b|result`.
+    fn wrap_site(&mut self, indent: usize) {
+        let id = self.wraps.len() + 1;
+        let ext: &[i64] = &[2147483647, -2147483647, 65536, 46341, -46341, 1, -1, 0, 2, 1073741824, -1073741825];
+        let a = *self.rng.pick(ext);
+        let b = *self.rng.pick(ext);
+        self.wraps.push((id, a, b));
+        let m = self.m();
+        let op = *self.rng.pick(&["+", "-", "*"]);
+        if self.rng.chance(1, 5) {
+            if a == -2147483647 {
+                // reach i32::MIN (not writable as a literal) so that the negation overflows
+                self.line(indent, &format!("~ wa_{id} = wa_{id} - 1"));
+            }
+            self.line(indent, &format!("{m} wrapneg|{{wa_{id}}}|{{-wa_{id}}}|"));
+        } else {
+            self.line(indent, &format!("{m} wrap|{{wa_{id}}}|{op}|{{wb_{id}}}|{{wa_{id} {op} wb_{id}}}|"));
+        }
+    }
+
     fn message_site(&mut self, indent: usize) {
         // a site that raises a warning or an error carrying a unique identifier
         self.msg_id += 1;
@@ -467,6 +488,7 @@ impl<'a> G<'a> {
                 self.line(indent, "}");
             }
             15 if self.cfg.message_sites && !in_func => self.message_site(indent),
+            17 if self.cfg.fault_prone && !in_func => self.wrap_site(indent),
             16 if self.cfg.glue => {
                 let m = self.m();
                 self.line(indent, &format!("{m} glued <>"));
@@ -580,6 +602,7 @@ pub fn render(rng: &mut Rng, cfg: &GenCfg) -> String {
         temps: vec![],
         msg_id: 0,
         divert_vars: vec![],
+        wraps: vec![],
     };
     // ---- declarations
     if g.cfg.globals {
@@ -840,6 +863,9 @@ pub fn render(rng: &mut Rng, cfg: &GenCfg) -> String {
     for id in 1..=g.msg_id {
         extra.push_str(&format!("VAR zero_{id} = 0\n"));
         extra.push_str(&format!("VAR dv_{id} = {id}\n"));
+    }
+    for (id, a, b) in &g.wraps {
+        extra.push_str(&format!("VAR wa_{id} = {a}\nVAR wb_{id} = {b}\n"));
     }
     let mut tail = String::new();
     for id in 1..=g.msg_id {
